@@ -58,6 +58,20 @@ pub trait Actor: Sized {
     fn post_start(&self, myself: ActorRef<Self::Msg>, state: &mut Self::State) -> UserFut<Result<(), ActorProcessingErr>>;
     fn post_stop(&self, myself: ActorRef<Self::Msg>, state: &mut Self::State) -> UserFut<Result<(), ActorProcessingErr>>;
 }
+#[verifier::external_body] pub struct ActorCell { _p: u8 }
+#[verifier::external_body] pub struct SupervisionEvent { _p: u8 }
+#[verifier::external_body]
+pub fn vx_started_event(c: ActorCell) -> SupervisionEvent { unimplemented!() }
+impl<M> ActorRef<M> {
+    #[verifier::external_body] pub fn clone(&self) -> ActorRef<M> { unimplemented!() }
+    #[verifier::external_body] pub fn get_cell(&self) -> ActorCell { unimplemented!() }
+    /// GUARD (C01/C04): the hook wrappers only run the user's callback under catch_unwind.  Whether the actor becomes Running and is
+    /// announced as started is decided by the caller, once BOTH layers of the result (no panic, and the callback's own Ok) are known.
+    #[verifier::external_body]
+    pub fn set_status(&self, status: ActorStatus) requires false { unimplemented!() }
+    #[verifier::external_body]
+    pub fn notify_supervisor_and_monitors(&self, evt: SupervisionEvent) requires false { unimplemented!() }
+}
 /// the panic text (downcasts of the payload; not under contract)
 #[verifier::external_body]
 pub fn get_panic_string(e: PanicPayload) -> ActorProcessingErr { unimplemented!() }
